@@ -27,6 +27,12 @@ type LimitsCase struct {
 	Sweep        bool     `json:"sweep,omitempty"`
 	EmptyBetween bool     `json:"empty_between,omitempty"` // an empty / comment-only load happens between P and P2
 	Picks        []uint64 `json:"picks,omitempty"`         // sampled placements, reduced modulo N / polls at run time
+	// Sentinel wraps the program's last form (at run time) in a form that
+	// needs one more evaluation step after it -- a constant, symbol or call
+	// in tail position -- behind the harness's own ignore-errors: once the
+	// budget is spent or the context cancelled, that step cannot succeed, so
+	// the run can never end with a value
+	Sentinel string `json:"sentinel,omitempty"`
 	// structural modes
 	Depth  int  `json:"depth,omitempty"`   // recursion depth / nesting depth / loop turns / expansions
 	MaxLim int  `json:"max_lim,omitempty"` // sweep the limit over [1,MaxLim]
@@ -129,6 +135,9 @@ func (limitsEngine) Gen(r *Rand, tier string) any {
 		c.Knobs.Stdlib = r.Chance(1, 10)
 		c.Knobs.TRO = PickStr(r, []string{"", "", "debugger", "profiler"})
 		c.EmptyBetween = r.Chance(1, 4)
+		if r.Chance(2, 5) {
+			c.Sentinel = PickStr(r, sentinelKinds)
+		}
 		if r.Chance(1, 4) { // swarm: small structural limits
 			if r.Bool() {
 				c.Knobs.MaxPhys = r.Range(3, 20)
@@ -219,8 +228,18 @@ func structProgram(r *Rand, kind string, depth int, caught bool) []*Node {
 				Call("+", I(1), rec))))
 		call = Call("rr", I(depth))
 	case "nest":
+		// depth levels of argument nesting; some levels may pass through a
+		// nested load, whose forms are evaluated beneath the caller's levels
 		cur := Call("sim:probe", QS("deep"), I(0))
+		through := r.Chance(1, 2)
 		for i := 0; i < depth; i++ {
+			if through && i > 0 && r.Chance(1, 4) {
+				if r.Bool() {
+					cur = Call("load-string", Str(cur.String()))
+				} else {
+					cur = Call("load-bytes", Call("to-bytes", Str(cur.String())))
+				}
+			}
 			cur = Call("+", I(1), cur)
 		}
 		call = cur
@@ -293,6 +312,44 @@ func hasSwallow(forms []*Node) bool {
 	return false
 }
 
+var sentinelKinds = []string{"progn-quote", "let-string", "if-int", "dotimes-result", "progn-symbol", "cond-default", "labels-call", "progn-plain", "let*-float", "progn-keyword"}
+
+func sentinelWrap(forms []*Node, kind string) []*Node {
+	if kind == "" || len(forms) == 0 {
+		return forms
+	}
+	out := append([]*Node(nil), forms...)
+	f := forms[len(forms)-1]
+	g := Call("ignore-errors", f)
+	var w *Node
+	switch kind {
+	case "progn-quote":
+		w = Call("progn", g, QS("zz-end"))
+	case "let-string":
+		w = Call("let", L(L(A("zq"), I(1))), g, Str("zz-end"))
+	case "if-int":
+		w = Call("if", g, I(1), I(2))
+	case "dotimes-result":
+		w = Call("dotimes", L(A("zi"), I(1), QS("zz-end")), g)
+	case "progn-symbol":
+		w = Call("progn", g, A("true"))
+	case "cond-default":
+		w = Call("cond", L(g, A("1.5")), L(A(":else"), A("2.5")))
+	case "labels-call":
+		w = Call("labels", L(L(A("zf"), L(), I(7))), g, Call("zf"))
+	case "progn-plain":
+		w = Call("progn", f, QS("zz-end"))
+	case "let*-float":
+		w = Call("let*", L(L(A("zq"), I(1))), g, A("2.5"))
+	case "progn-keyword":
+		w = Call("progn", g, A(":zz-end"))
+	default:
+		return forms
+	}
+	out[len(out)-1] = w
+	return out
+}
+
 type limRun struct {
 	w   *World
 	out Outcome
@@ -314,7 +371,7 @@ func runLimits(k Knobs, budget int64, cancelAt int64, forms []*Node) (*limRun, e
 // and a cancellation index.
 func (c *LimitsCase) run(k Knobs, budget, cancelAt int64) (*limRun, error) {
 	if c.Entry == nil {
-		return runLimits(k, budget, cancelAt, c.Forms)
+		return runLimits(k, budget, cancelAt, sentinelWrap(c.Forms, c.Sentinel))
 	}
 	k.MaxSteps = hugeBudget
 	k.UseSimCtx = false
@@ -460,7 +517,7 @@ func (e limitsEngine) runGeneral(c *LimitsCase, st *Stats) *Violation {
 	if N != P {
 		return Violf("step-not-cancellable", "after run: steps=%d but context polled %d times", N, P)
 	}
-	swallow := hasSwallow(c.Forms) || hasSwallow(c.Prelude) || (c.Entry != nil && (strings.Contains(c.Entry.Args+" "+c.Entry.Fun, "ignore-errors") || strings.Contains(c.Entry.Args+" "+c.Entry.Fun, "handler-bind")))
+	swallow := (c.Sentinel != "" && c.Sentinel != "progn-plain" && c.Entry == nil) || hasSwallow(c.Forms) || hasSwallow(c.Prelude) || (c.Entry != nil && (strings.Contains(c.Entry.Args+" "+c.Entry.Fun, "ignore-errors") || strings.Contains(c.Entry.Args+" "+c.Entry.Fun, "handler-bind")))
 	if c.Entry != nil {
 		st.Inc("entry_" + c.Entry.Kind + "_" + c.Entry.Fun)
 	}
@@ -602,6 +659,12 @@ func (e limitsEngine) checkBudget(c *LimitsCase, st *Stats, ref *limRun, n, N in
 		} else if run.out.Cond != lisp.CondStepLimitExceeded {
 			st.Inc("reach_exhaustion_swallowed")
 		}
+		if c.Sentinel != "" && c.Entry == nil {
+			st.Inc("reach_exhaustion_before_sentinel_step")
+			if !run.out.IsErr {
+				return Violf("value-after-exhaustion", "budget %d of %d: the run ended with the value %q although the %s sentinel needs a step after the budget ran out", n, N, run.out.Result(), c.Sentinel)
+			}
+		}
 	}
 	// 5a. the smallest possible top-level evaluations (a literal, a symbol)
 	// are top-level evaluations too: each starts with a full budget
@@ -711,6 +774,12 @@ func (e limitsEngine) checkCancel(c *LimitsCase, st *Stats, ref *limRun, k, P in
 		}
 		if run.w.Ctx.Polls != k {
 			return Violf("step-after-cancel", "cancel at poll %d: context polled %d times, evaluation continued stepping after cancellation", k, run.w.Ctx.Polls)
+		}
+	}
+	if c.Sentinel != "" && c.Entry == nil {
+		st.Inc("reach_cancel_before_sentinel_step")
+		if !run.out.IsErr {
+			return Violf("value-after-cancel", "cancel at poll %d of %d: the run ended with the value %q although the %s sentinel needs a step after the cancellation", k, P, run.out.Result(), c.Sentinel)
 		}
 	}
 	// after a cancelled evaluation the runtime is usable with a live context
@@ -932,6 +1001,11 @@ func (e limitsEngine) runStruct(c *LimitsCase, st *Stats) *Violation {
 				return fail(Violf("tail-limit-inexact", "tail loop of %d turns under MaxTailIterations %d: overflowed=%v, want %v", c.Depth, lim, overflowed, want))
 			}
 		}
+		if c.Mode == "nest" && !overflowed && lim < c.Depth {
+			// every one of the Depth argument levels is evaluated inside the
+			// evaluation of the level around it
+			return fail(Violf("nest-limit-not-enforced", "an expression nested %d levels deep (some through nested loads) finished under MaxEvalNesting %d", c.Depth, lim))
+		}
 		if c.Mode == "phys" && !overflowed && run.w.MaxFrames > lim {
 			return fail(Violf("bound-exceeded", "physical limit %d: observed %d frames", lim, run.w.MaxFrames))
 		}
@@ -965,6 +1039,11 @@ func (e limitsEngine) Shrink(ci any) []any {
 		out = append(out, d)
 	}
 	pinned := len(c.Budgets)+len(c.Cancels) == 1
+	if c.Sentinel != "" {
+		d := cp()
+		d.Sentinel = ""
+		out = append(out, d)
+	}
 	if len(c.Forms2) > 0 {
 		d := cp()
 		d.Forms2 = nil
